@@ -1039,11 +1039,11 @@ reg('C03', run_C03, ['Prop_C03.v'], BERULE + 'non-trivial = grammars with >= 2 r
     level_note=MODEL_NOTE + ' Digraph is modelled as transitive union (saturation), the SCC bookkeeping of Traverse is tied by the differential run only.')
 reg('C04', run_C04, ['Prop_C04.v'], BERULE + 'non-trivial = grammars with precedence declarations; plus every pair of the finite (type, prec, assoc, index) grid through ResolveConflict/UseDefaultResolveConflict',
     technique='Coq theorems (resolution function by cases; every cell of the emitted table = resolution of its candidates; two-way conflict cells of the emitted table; which symbol gives a rule its precedence) + exhaustive differential run of the exported ResolveConflict/UseDefaultResolveConflict + dense-cell comparison with the model + rule precedence read back against the declarations + values of real expression parsers',
-    level_text="Proved in Coq for all precedences/associativities/indices: shift/reduce with precedence on both sides (higher wins; equal: left reduces, right shifts, nonassoc is an error; no warning), shift/reduce default = shift with warning, reduce/reduce default = the earlier rule with warning (C04_sr_prec, C04_sr_same_level, C04_sr_default, C04_rr_default); at the level of the emitted tables every cell, read as the generated parsers read it, is the pairwise resolution of its candidate actions, hence the same three statements for every two-way conflict cell of the emitted table (C04_pipeline_cell, C04_pipeline_sr_prec, C04_pipeline_sr_default, C04_pipeline_rr_default); a rule carries the precedence of the symbol named by %prec (none if that symbol has no level), else of its last right-hand-side symbol with a level (C04_rule_precedence). The exported Go functions are run on the complete finite grid against the model; every dense cell and the warning multiset of every corpus grammar are compared with the model; rule and terminal precedences as the implementation reads them from files (alternatives grouped with |, %prec anywhere, tokens without a level) are compared with the declarations. Whole-expression grouping (the last sentence of the property) is covered by comparing the values computed by the real expression parsers with the model's (evaluation, not a theorem: partial).",
+    level_text="Proved in Coq for all precedences/associativities/indices: shift/reduce with precedence on both sides (higher wins; equal: left reduces, right shifts, nonassoc is an error; no warning), shift/reduce default = shift with warning, reduce/reduce default = the earlier rule with warning (C04_sr_prec, C04_sr_same_level, C04_sr_default, C04_rr_default); at the level of the emitted tables every cell, read as the generated parsers read it, is the pairwise resolution of its candidate actions, hence the same three statements for every two-way conflict cell of the emitted table (C04_pipeline_cell, C04_pipeline_sr_prec, C04_pipeline_sr_default, C04_pipeline_rr_default); a rule carries the precedence of the symbol named by %prec (none if that symbol has no level), else of its last right-hand-side symbol with a level (C04_rule_precedence). The exported Go functions are run on the complete finite grid against the model; every dense cell and the warning multiset of every corpus grammar are compared with the model; rule and terminal precedences as the implementation reads them from files (alternatives grouped with |, %prec anywhere, tokens without a level) are compared with the declarations. Whole-expression grouping (the last sentence of the property) is covered by comparing the values computed by the real expression parsers with the model's (evaluation, not a theorem: partial). C04_from_the_text: the same statement for the matrix computed from the bytes of a grammar file, with no hypothesis on the grammar object.",
     level_note=MODEL_NOTE)
 reg('C05', run_C05, ['Prop_C05.v'], BERULE + 'evaluations = cells looked up through the packed arrays + random matrices through PackTable/UnPackTable + packed vs -u parser runs; non-trivial = grammars with a non-error default, matrices with an empty leading column',
     technique='Coq theorem (first-fit row displacement with check vector is lossless for every matrix and row order) + every (state,symbol) lookup through the implementation\'s packed arrays vs its dense table + random matrices through PackTable/UnPackTable + packed vs -u parsers',
-    level_text="Proved in Coq for every matrix and every duplicate-free row order: lookup through the packed arrays returns the cell (C05_lookup_core, C05_lookup), unpacking the packed arrays gives back the matrix (C05_pack_roundtrip); for every table generate_tables emits no cell is 0 and the start-symbol column holds the error code (C05_conditions_hold), so its packed lookups equal its dense cells as soon as no goto column can land on a negative slot - one boolean condition on the offset vector (C05_packed_agrees_offsets, C05_packed_agrees) - and then the packed and dense parsers agree on every input (C08_variants). On every run every cell of every corpus grammar (incl. tables with more than 64 columns and more than 256 productions) is looked up through the implementation's own packed arrays (template Action() logic) and compared with GTable, the conditions of the theorem are evaluated on the implementation's arrays, random matrices go through utils.PackTable/UnPackTable, and packed vs -u generated parsers are compared on all inputs.",
+    level_text="Proved in Coq for every matrix and every duplicate-free row order: lookup through the packed arrays returns the cell (C05_lookup_core, C05_lookup), unpacking the packed arrays gives back the matrix (C05_pack_roundtrip); for every table generate_tables emits no cell is 0 and the start-symbol column holds the error code (C05_conditions_hold), so its packed lookups equal its dense cells as soon as no goto column can land on a negative slot - one boolean condition on the offset vector (C05_packed_agrees_offsets, C05_packed_agrees) - and then the packed and dense parsers agree on every input (C08_variants). On every run every cell of every corpus grammar (incl. tables with more than 64 columns and more than 256 productions) is looked up through the implementation's own packed arrays (template Action() logic) and compared with GTable, the conditions of the theorem are evaluated on the implementation's arrays, random matrices go through utils.PackTable/UnPackTable, and packed vs -u generated parsers are compared on all inputs. C05_from_the_text: for every text, the packed lookups equal the matrix cells under the offset condition alone.",
     level_note=MODEL_NOTE)
 reg('C06', run_C06, ['Prop_C06.v'], I6RULE + 'evaluations = rejected runs; non-trivial = distinct (conflict-free grammar, non-sentence) whose error position is compared with an Earley viable-prefix computation',
     technique='Coq theorems (no Crash / nil return under the table certificate; a token is shifted only if input-so-far plus that token begins a sentence: soundness of LR(1) items over access paths + parse trees on the stack + productivity) + outcome classification and fetch count of every rejected run of the real parsers vs Earley viable-prefix computation and the model',
@@ -1085,7 +1085,7 @@ reg('C10', frontprops.run_C10, ['Prop_C10.v'], 'abstract specifications (curated
     level_note=MODEL_NOTE + ' Dialect restrictions are explicit in the generator and in the theorems (DESIGN 5.C10): brace-balanced action/union bodies, a literal never directly after a bare identifier in a %token line (it would be its alias: titems_ok), %type with a tag and at least one name, %union followed by blanks then { then white space; token aliases and the string-literal token kind are outside the specification language of the theorems (they are in the executable model and in the comparison).')
 reg('C11', frontprops.run_C11, ['Prop_C11.v'], 'declaration mixes: seeded random grammars with 3-9 terminals declared in every way (tagged/untagged %token lines, several per line, explicit numbers: small, > 255, negative, inside the range the automatic numbering walks through, re-declared in a second %token line, character literals declared / only in precedence lines / only in rules, aliases), distinct explicit numbers. Checked on the implementation: the verified checker Front.valid_codes (extracted) on the AST declarations and the final identifier table; emitted `const NAME = n` lines and the translate switch of both generated files (Go, TypeScript) against the grammar\'s terminals. non-trivial = mixes with both automatically numbered and explicitly numbered named tokens',
     technique="Coq-verified checker (valid_codes_sound) + theorem that the visitor model's numbering always passes it + model of the translate switch with its specification + checker run on the implementation's identifier table + emitted constants/translate parsed from both generated targets + Coq visitor model on the implementation AST",
-    level_text="Proved in Coq: any code table accepted by valid_codes keeps every fixed code, gives every other token a code outside the fixed codes and different from -1, and is duplicate-free when the fixed codes are (C11_checker_sound); the model of the visitor's numbering always produces a table that passes valid_codes (C11_codes_model, C11_codes); the model of the generated translate switch maps, when the terminals' codes are pairwise different, every token code to its own grammar symbol, -1 to the end marker and every other integer to the error default (C11_translate, C11_translate_end_marker). The extracted checker also runs on the implementation's own declarations and final table for every declaration mix; the emitted constants and the translate switch of the generated Go and TypeScript files are parsed and compared with the grammar's terminals (every named token has its constant, every code maps to its own symbol, -1 to the end marker, nothing else listed); the Coq visitor model is compared with the implementation on every AST.",
+    level_text="Proved in Coq: any code table accepted by valid_codes keeps every fixed code, gives every other token a code outside the fixed codes and different from -1, and is duplicate-free when the fixed codes are (C11_checker_sound); the model of the visitor's numbering always produces a table that passes valid_codes (C11_codes_model, C11_codes); the model of the generated translate switch maps, when the terminals' codes are pairwise different, every token code to its own grammar symbol, -1 to the end marker and every other integer to the error default (C11_translate, C11_translate_end_marker). The extracted checker also runs on the implementation's own declarations and final table for every declaration mix; the emitted constants and the translate switch of the generated Go and TypeScript files are parsed and compared with the grammar's terminals (every named token has its constant, every code maps to its own symbol, -1 to the end marker, nothing else listed); the Coq visitor model is compared with the implementation on every AST. C11_unknown_code_from_the_text: for every text, the column unknown codes are sent to is the error action in every state.",
     level_note=MODEL_NOTE)
 reg('C12', frontprops.run_C12, ['Prop_C12.v'], 'seeded random usable grammars with one planted defect each: undefined symbol anywhere in a right-hand side; nonterminal without terminal derivation through left recursion, right recursion, mutual recursion, two recursive rules, unreachable, at the start symbol; %type name without rule; %start without rule; and the accept side: productive only through an empty rule, productive through a chain of unit rules listed in the unfavourable order, no defect. Compared: refusal and its reason (from the panic text) with the planted defect, and with the Coq front-end model run on the implementation\'s AST. non-trivial = grammars that must be refused',
     technique='Coq theorem (the sweep-until-stable loop computes exactly the productive symbols) + planted-defect grammars through the real front end + Coq front-end model (visit, build_grammar) on the implementation AST',
